@@ -648,7 +648,7 @@ func main() {
 	c := hx.New("C13")
 	defer c.Finish()
 	lib.Init()
-	nLin := c.Pick(3200, 120000)
+	nLin := c.Pick(8000, 400000)
 	nStress := c.Pick(16, 320)
 	nPool := c.Pick(16, 320)
 	total := nLin + nStress + nPool
